@@ -346,21 +346,31 @@ func calculateReuseIndexFor(r *Rule, oldResTcs []TrafficShapingController) (equa
 // buildResourceTrafficShapingController builds TrafficShapingController slice from rules. the resource of rules must be equals to res.
 func buildResourceTrafficShapingController(res string, resRules []*Rule, oldResTcs []TrafficShapingController) []TrafficShapingController {
 	newTcsOfRes := make([]TrafficShapingController, 0, len(resRules))
-	for _, rule := range resRules {
+	// First pass: an old controller whose rule is unchanged is reserved for exactly that rule, so that
+	// its statistics are not handed to another (earlier) rule of the new list that merely is
+	// statistic-compatible with it.
+	unchangedTcs := make([]TrafficShapingController, len(resRules))
+	for i, rule := range resRules {
+		if res != rule.Resource {
+			continue
+		}
+		if equalIdx, _ := calculateReuseIndexFor(rule, oldResTcs); equalIdx >= 0 {
+			unchangedTcs[i] = oldResTcs[equalIdx]
+			oldResTcs = append(oldResTcs[:equalIdx], oldResTcs[equalIdx+1:]...)
+		}
+	}
+	for i, rule := range resRules {
 		if res != rule.Resource {
 			logging.Error(errors.Errorf("unmatched resource name, expect: %s, actual: %s", res, rule.Resource), "Unmatched resource name in hotspot.buildResourceTrafficShapingController()", "rule", rule)
 			continue
 		}
 
-		equalIdx, reuseStatIdx := calculateReuseIndexFor(rule, oldResTcs)
 		// there is equivalent rule in old traffic shaping controller slice
-		if equalIdx >= 0 {
-			equalOldTC := oldResTcs[equalIdx]
-			newTcsOfRes = append(newTcsOfRes, equalOldTC)
-			// remove old tc from old resTcs
-			oldResTcs = append(oldResTcs[:equalIdx], oldResTcs[equalIdx+1:]...)
+		if unchangedTcs[i] != nil {
+			newTcsOfRes = append(newTcsOfRes, unchangedTcs[i])
 			continue
 		}
+		_, reuseStatIdx := calculateReuseIndexFor(rule, oldResTcs)
 
 		// generate new traffic shaping controller
 		generator, supported := tcGenFuncMap[rule.ControlBehavior]
